@@ -20,7 +20,8 @@
      P5  a point with a zero column (aa == 0 or bb == 0: one coordinate does not occur in any equation) is undetermined: removed;
      P6  removed  <=>  D < 1e-12; removal = result true, xy status bits cleared, removed(id, rm_singular_xy) called exactly once;
          a point that is kept is not touched;
-     P7  memory safety: rows 1..A.rows(), columns = the point's unknown indices within 1..A.cols().  */
+     P7  memory safety: rows 1..A.rows(), columns = the point's unknown indices within 1..A.cols();
+         every row is read exactly once, `a` from column index_x and `b` from column index_y.  */
 
 //@ prelude
 typedef double Float;
@@ -52,8 +53,11 @@ double __CPROVER_uninterpreted_ael(int, int);
 #define SQ_LO 0x1p-132
 #define SQ_HI 0x1p132
 static Index Mat_rows(const struct Mat *A) { return A->row_; }        /* one-line getter `return row_;` */
+int gv_ael_calls, gv_col_a, gv_col_b;    /* ghost: number of element reads; column of the last odd / even read */
 static double gvs_A(const struct Mat *A, int r, int c)
 {
+  if (gv_ael_calls % 2 == 0) gv_col_a = c; else gv_col_b = c;
+  gv_ael_calls++;
   __CPROVER_assert(1 <= r && r <= A->row_, "A(r,c): 1 <= r <= rows");
   __CPROVER_assert(1 <= c && c <= A->col_, "A(r,c): 1 <= c <= cols (the point's unknown index is a column of the design matrix)");
   double v = AEL(r, c);
@@ -137,8 +141,8 @@ __CPROVER_requires(__CPROVER_rw_ok(self, sizeof(*self)) && __CPROVER_r_ok(A__p, 
 __CPROVER_requires(0 <= A__p->row_ && A__p->row_ <= MAXROWS && 0 <= A__p->col_ && A__p->col_ <= MAXCOLS)
 /* the point's unknown indices are 0 (none) or columns of the design matrix (project_equations numbers them 1..cols) */
 __CPROVER_requires(0 <= i->second.ix_ && i->second.ix_ <= A__p->col_ && 0 <= i->second.iy_ && i->second.iy_ <= A__p->col_)
-__CPROVER_requires(gv_removed_calls == 0 && gv_reached == 0 && gv_exc == 0)
-__CPROVER_assigns(*result__p, i->second.pst_, gv_removed_calls, gv_removed_id, gv_removed_rm, gv_reached, gv_aa, gv_ab, gv_bb, gv_D)
+__CPROVER_requires(gv_removed_calls == 0 && gv_reached == 0 && gv_exc == 0 && gv_ael_calls == 0)
+__CPROVER_assigns(*result__p, i->second.pst_, gv_removed_calls, gv_removed_id, gv_removed_rm, gv_reached, gv_aa, gv_ab, gv_bb, gv_D, gv_ael_calls, gv_col_a, gv_col_b)
 /* P1 */
 __CPROVER_ensures(((__CPROVER_old(i->second.pst_) & xy_fixed_) != 0 || (__CPROVER_old(i->second.pst_) & active_xy_) == 0) ==>
                   (PT_KEPT(i, *result__p, __CPROVER_old(*result__p), __CPROVER_old(i->second.pst_)) && !gv_reached))
@@ -153,6 +157,8 @@ __CPROVER_ensures(((__CPROVER_old(i->second.pst_) & xy_fixed_) == 0 && (__CPROVE
 __CPROVER_ensures(gv_reached ==> (gv_D == gv_D && gv_D <= 1))
 /* P5 */
 __CPROVER_ensures((gv_reached && (gv_aa == 0 || gv_bb == 0)) ==> PT_FLAGGED(i, *result__p))
+/* P7 */
+__CPROVER_ensures(gv_reached ==> (gv_ael_calls == 2 * A__p->row_ && (A__p->row_ >= 1 ==> (gv_col_a == i->second.ix_ && gv_col_b == i->second.iy_))))
 /* the z status bits and the indices are never touched */
 __CPROVER_ensures((i->second.pst_ & active_z_) == (__CPROVER_old(i->second.pst_) & active_z_) && i->second.ix_ == __CPROVER_old(i->second.ix_) && i->second.iy_ == __CPROVER_old(i->second.iy_))
 //@ entry LocalNetwork_singular_coords_point
@@ -160,8 +166,8 @@ GV_CANARY("LocalNetwork_singular_coords_point entry");
 double a, b, aa, ab, bb, D;          /* locals of singular_coords declared in front of the walk */
 int indx, indy, r;
 //@ loop LocalNetwork_singular_coords_point 1
-__CPROVER_assigns(r, a, b, aa, ab, bb)
-__CPROVER_loop_invariant(1 <= r && r <= A__p->row_ + 1 &&
+__CPROVER_assigns(r, a, b, aa, ab, bb, gv_ael_calls, gv_col_a, gv_col_b)
+__CPROVER_loop_invariant(1 <= r && r <= A__p->row_ + 1 && gv_ael_calls == 2 * (r - 1) && (r > 1 ==> (gv_col_a == indx && gv_col_b == indy)) &&
                          aa >= 0 && aa <= (double)(r - 1) * SQ_HI && (aa == 0 || aa >= SQ_LO) &&
                          bb >= 0 && bb <= (double)(r - 1) * SQ_HI && (bb == 0 || bb >= SQ_LO) &&
                          ab >= -(double)(r - 1) * SQ_HI && ab <= (double)(r - 1) * SQ_HI)
@@ -179,7 +185,7 @@ static void mk_point(struct Mat *A, struct PDentry *e)
 {
   __CPROVER_assume(0 <= A->row_ && A->row_ <= MAXROWS && 0 <= A->col_ && A->col_ <= MAXCOLS);
   __CPROVER_assume(0 <= e->second.ix_ && e->second.ix_ <= A->col_ && 0 <= e->second.iy_ && e->second.iy_ <= A->col_);
-  gv_removed_calls = 0; gv_reached = 0; gv_exc = 0;
+  gv_removed_calls = 0; gv_reached = 0; gv_exc = 0; gv_ael_calls = 0;
 }
 void h_point(void)
 {
@@ -190,23 +196,41 @@ void h_point(void)
 }
 void h_lp_fixed(void) { struct LocalPoint p; bool b = LocalPoint_fixed_xy(&p); GV_CANARY("h_lp_fixed end"); }
 void h_lp_active(void) { struct LocalPoint p; bool b = LocalPoint_active_xy(&p); GV_CANARY("h_lp_active end"); }
-/* P3: a ghost pair of runs of the real code on the same point; the pair is SELECTED afterwards by the relation between the column
-   sums the two runs used (aa' = aa, bb' = bb, ab' = -ab, bit for bit) */
+/* P3: a ghost pair of runs of the real code on the same point.  goto-instrument allows one top-level call of an enforced function,
+   so the pair is a wrapper function (harness text, no gama code) whose contract is enforced; the per-point body is called twice as
+   ordinary code (its loop contract applied).  The pair is SELECTED by the relation between the column sums the two runs used
+   (aa' = aa, bb' = bb, ab' = -ab, bit for bit): antecedent of the postcondition. */
+double gv1_aa, gv1_ab, gv1_bb, gv1_D, gv2_aa, gv2_ab, gv2_bb, gv2_D; int gv1_calls, gv2_calls, gv1_reached, gv2_reached;
+void gv_symm_pair(struct LocalNetwork *N, const struct Mat *A1, const struct Mat *A2, struct PDentry *e1, struct PDentry *e2, bool *r1, bool *r2)
+__CPROVER_requires(__CPROVER_rw_ok(N, sizeof(*N)) && __CPROVER_r_ok(A1, sizeof(*A1)) && __CPROVER_r_ok(A2, sizeof(*A2)) && __CPROVER_rw_ok(e1, sizeof(*e1)) &&
+                   __CPROVER_rw_ok(e2, sizeof(*e2)) && __CPROVER_rw_ok(r1, sizeof(bool)) && __CPROVER_rw_ok(r2, sizeof(bool)))
+__CPROVER_requires(0 <= A1->row_ && A1->row_ <= MAXROWS && 0 <= A1->col_ && A1->col_ <= MAXCOLS && 0 <= A2->row_ && A2->row_ <= MAXROWS && A2->col_ == A1->col_)
+/* the same active free point with both unknowns, the same `result` so far */
+__CPROVER_requires(e1->first == e2->first && e1->second.pst_ == e2->second.pst_ && e1->second.ix_ == e2->second.ix_ && e1->second.iy_ == e2->second.iy_ && *r1 == *r2)
+__CPROVER_requires((e1->second.pst_ & xy_fixed_) == 0 && (e1->second.pst_ & active_xy_) != 0 && 1 <= e1->second.ix_ && e1->second.ix_ <= A1->col_ && 1 <= e1->second.iy_ && e1->second.iy_ <= A1->col_)
+__CPROVER_requires(gv_exc == 0)
+__CPROVER_assigns(*r1, *r2, e1->second.pst_, e2->second.pst_, gv_removed_calls, gv_removed_id, gv_removed_rm, gv_reached, gv_aa, gv_ab, gv_bb, gv_D, gv_ael_calls, gv_col_a, gv_col_b,
+                  gv1_aa, gv1_ab, gv1_bb, gv1_D, gv2_aa, gv2_ab, gv2_bb, gv2_D, gv1_calls, gv2_calls, gv1_reached, gv2_reached)
+__CPROVER_ensures(gv1_reached == 1 && gv2_reached == 1)
+__CPROVER_ensures((SAME_BITS(gv2_aa, gv1_aa) && SAME_BITS(gv2_bb, gv1_bb) && SAME_BITS(gv2_ab, -gv1_ab)) ==>
+                  (*r1 == *r2 && e1->second.pst_ == e2->second.pst_ && gv1_calls == gv2_calls && SAME_BITS(gv1_D, gv2_D)))
+{
+  GV_CANARY("gv_symm_pair entry");
+  gv_removed_calls = 0; gv_reached = 0; gv_ael_calls = 0;
+  LocalNetwork_singular_coords_point(N, A1, e1, r1);
+  gv1_aa = gv_aa; gv1_ab = gv_ab; gv1_bb = gv_bb; gv1_D = gv_D; gv1_calls = gv_removed_calls; gv1_reached = gv_reached;
+  gv_removed_calls = 0; gv_reached = 0; gv_ael_calls = 0;
+  LocalNetwork_singular_coords_point(N, A2, e2, r2);
+  gv2_aa = gv_aa; gv2_ab = gv_ab; gv2_bb = gv_bb; gv2_D = gv_D; gv2_calls = gv_removed_calls; gv2_reached = gv_reached;
+}
 void h_symmetry(void)
 {
-  struct LocalNetwork N; struct Mat A1, A2; struct PDentry e0, e1, e2; bool r0, r1, r2;
-  mk_point(&A1, &e0);
+  struct LocalNetwork N; struct Mat A1, A2; struct PDentry e1, e2; bool r1, r2;
+  mk_point(&A1, &e1);
   __CPROVER_assume(0 <= A2.row_ && A2.row_ <= MAXROWS && A2.col_ == A1.col_);
-  __CPROVER_assume((e0.second.pst_ & xy_fixed_) == 0 && (e0.second.pst_ & active_xy_) != 0 && e0.second.ix_ != 0 && e0.second.iy_ != 0);
-  e1 = e0; e2 = e0; r1 = r0; r2 = r0;
-  LocalNetwork_singular_coords_point(&N, &A1, &e1, &r1);
-  double aa1 = gv_aa, ab1 = gv_ab, bb1 = gv_bb, D1 = gv_D; int c1 = gv_removed_calls;
-  gv_removed_calls = 0; gv_reached = 0;
-  LocalNetwork_singular_coords_point(&N, &A2, &e2, &r2);
-  double aa2 = gv_aa, ab2 = gv_ab, bb2 = gv_bb, D2 = gv_D; int c2 = gv_removed_calls;
-  __CPROVER_assume(SAME_BITS(aa2, aa1) && SAME_BITS(bb2, bb1) && SAME_BITS(ab2, -ab1));
-  __CPROVER_assert(r1 == r2 && e1.second.pst_ == e2.second.pst_ && c1 == c2, "P3: the verdict does not depend on the sign of the dot product of the two columns");
-  __CPROVER_assert(SAME_BITS(D1, D2), "P3: D = 1 - |cos| is the same for ab and -ab");
+  __CPROVER_assume((e1.second.pst_ & xy_fixed_) == 0 && (e1.second.pst_ & active_xy_) != 0 && e1.second.ix_ != 0 && e1.second.iy_ != 0);
+  e2 = e1; r2 = r1;
+  gv_symm_pair(&N, &A1, &A2, &e1, &e2, &r1, &r2);
   GV_CANARY("h_symmetry end");
 }
 //@ end
